@@ -74,12 +74,19 @@ def x_nf():
   return NF.x()
 
 
-def hard_sigmoid_nf():
+def hard_sigmoid_nf(mode="hard"):
+  """The library's internal sigmoid for the mode chosen with
+  set_internal_sigmoid (documented forms)."""
+  if mode == "smooth":
+    return mk_app("clip", [NF.x() * F(3, 16) + F(1, 2), NF.const(0),
+                           NF.const(1)])
+  if mode == "real":
+    return mk_app("sigmoid", [NF.x()])
   return mk_app("clip", [NF.x() * F(1, 2) + F(1, 2), NF.const(0),
                          NF.const(1)])
 
 
-def reference(cls, kw):
+def reference(cls, kw, mode="hard"):
   """(reference NF = clip(surrogate, min code, max code), step between
   adjacent codes) or None when the class/config is outside C02."""
   if cls in ("quantized_bits", "quantized_linear"):
@@ -109,14 +116,14 @@ def reference(cls, kw):
     s, _ = oracle.codes_quantized_tanh(kw["bits"], kw["symmetric"])
     lo, hi = s.bounds()
     a = mk_app("tanh", [NF.x()]) if kw.get("use_real_tanh") else \
-        hard_sigmoid_nf() * 2 - 1
+        hard_sigmoid_nf(mode) * 2 - 1
     return mk_app("clip", [a, NF.const(lo), NF.const(hi)]), \
         1 / oracle.p2(kw["bits"] - 1), s
   if cls == "quantized_sigmoid":
     s, _ = oracle.codes_quantized_sigmoid(kw["bits"], kw["symmetric"])
     lo, hi = s.bounds()
     a = mk_app("sigmoid", [NF.x()]) if kw.get("use_real_sigmoid") else \
-        hard_sigmoid_nf()
+        hard_sigmoid_nf(mode)
     return mk_app("clip", [a, NF.const(lo), NF.const(hi)]), \
         1 / oracle.p2(kw["bits"]), s
   return None
@@ -277,16 +284,28 @@ def run(rep, repo, tier):
   rep.assumptions.append("ties may go either way; float32 effects at "
                          "breakpoints (+-1 ulp) are not modelled")
   n = 0
+  points = []
   for cls, kw, codes, txt, bits in oracle.lattice_fixed_point(tier):
-    r = reference(cls, kw)
+    points.append((cls, kw, "hard"))
+    # the approximated sigmoid is module state (set_internal_sigmoid): the
+    # quantizers built on it must follow the selected form
+    if (cls == "quantized_tanh" and not kw.get("use_real_tanh")) or (
+        cls == "quantized_sigmoid" and not kw.get("use_real_sigmoid")):
+      points.append((cls, kw, "smooth"))
+      points.append((cls, kw, "real"))
+  for cls, kw, mode in points:
+    r = reference(cls, kw, mode)
     if r is None:
       continue
     ref, step, codes = r
     cfg = "%s(%s)" % (cls, oracle.show_kwargs(kw))
+    if mode != "hard":
+      cfg += " after set_internal_sigmoid(%r)" % mode
     unit = "%s::%s.__call__" % (mod.relpath, cls)
     rep.unit(unit)
     try:
-      b = quant.build(repo, cls, kw)
+      b = quant.build(repo, cls, kw, setup=None if mode == "hard" else
+                      quant.sigmoid_mode(mode))
     except ConfigRejected:
       continue
     n += 1
